@@ -9,7 +9,7 @@ length-prefixed; matrices row-major as one list; `sweep` = 0 forward, 1 backward
   mgsolve  (same as mg without <x>) <active> tol maxiter
        -> <x> ; k or inf ; <res²/res0² after every step>        (solve_hmultigrid glue: iterative_solve ∘ local_mg_step)
   isolve <c> <d> <a> <f> hasx0 [x0] tol maxiter        scalar step x ↦ c·x + d, residual f − a·x
-       -> x ; k or inf | err-ZeroDivisionError (initial residual zero: `res / res0` on Python floats)
+       -> x ; k or inf        (initial residual zero: returns x0 ; 0)
   twogrid n nc <A> <P n*nc> <f> hasu0 [<u0>] tol smooth_steps maxiter gsiters sweep
        -> <u> ; numiter ; exit ; <res²/res0² judged in every round>
   smooth numlevels useExtra disparity(-1 = inf) <act_l>.. <deact_l>.. <dir[lv][i]>.. <extra[lv][i]>.. <avail[lv][l]>..
@@ -177,10 +177,10 @@ def doMgSolve : P String := do
   let ressq (x : Vec) : Rat := let r := fv - matVec A ⟨pad n x⟩; dot (gather r active) (gather r active)
   let res0 := dot (gather fv active) (gather fv active)
   let x0 : Vec := ⟨(List.range n).map (fun _ => 0)⟩
-  if res0 = 0 then pure "err-ZeroDivisionError" else   -- `res / res0` with a Python float `res0`
-  let (x, k) := iterativeSolve (fun x => mgCycle D x fv) (fun x => convSq res0 tol (ressq x)) maxiter x0
+  let (x, k) := iterativeSolveNow (res0 == 0) (fun x => mgCycle D x fv) (fun x => convSq res0 tol (ressq x)) maxiter x0
   -- replay for the ratios
   let kk := match k with | some k => k | none => (if maxiter = 0 then 1 else maxiter)
+  let _ := kk
   let ratios := ((List.range kk).foldl (fun (st : Vec × List Rat) _ =>
       let x' := mgCycle D st.1 fv
       (x', st.2 ++ [if res0 = 0 then -1 else ressq x' / res0])) (x0, [])).2
@@ -192,8 +192,7 @@ def doISolve : P String := do
   let x0 ← if hx then rat else pure 0
   let tol ← rat; let maxiter ← nat
   let res0sq := if hx then (f - a * x0) * (f - a * x0) else f * f
-  if res0sq = 0 then pure "err-ZeroDivisionError" else   -- `res / res0` with a Python float `res0`
-  let (x, k) := iterativeSolve (fun x => c * x + d) (fun x => convSq res0sq tol ((f - a * x) * (f - a * x))) maxiter x0
+  let (x, k) := iterativeSolveNow (res0sq == 0) (fun x => c * x + d) (fun x => convSq res0sq tol ((f - a * x) * (f - a * x))) maxiter x0
   pure s!"{showRat x} ; {match k with | some k => toString k | none => "inf"}"
 
 def doTwogrid : P String := do
